@@ -195,12 +195,13 @@ def transformOp (req : Json) : Except String Json := do
   let floats ← pairsOf req "floats"
   let cfg : Transformer.Cfg := { pos := ← getBool req "pos", com := ← getBool req "com", floatOf := fun s => lookupS s floats }
   let tree ← decodeTree (← req.getObjVal? "tree")
+  let shape := Json.bool (Transformer.shapeRootB (Transformer.canonize tree))
   match Transformer.transform cfg tree with
-  | .error e => pure (Json.mkObj [("err", .str e.name)])
+  | .error e => pure (Json.mkObj [("err", .str e.name), ("shape", shape)])
   | .ok r =>
     match Transformer.resultJ r with
-    | some v => pure (Json.mkObj [("ok", ofJ v)])
-    | none => pure (Json.mkObj [("err", .str "UNSUPPORTED")])
+    | some v => pure (Json.mkObj [("ok", ofJ v), ("shape", shape)])
+    | none => pure (Json.mkObj [("err", .str "UNSUPPORTED"), ("shape", shape)])
 
 def handle (op : String) (req : Json) : Except String Json := do
   match op with
